@@ -125,6 +125,7 @@ var bPool = []BVal{
 	{K: "uint32", I: 0}, {K: "uint32", I: math.MaxUint32}, {K: "uint32", I: 1 << 31},
 	{K: "float64", F: 0}, {K: "float64", F: math.Copysign(0, -1)}, {K: "float64", F: 1.5}, {K: "float64", F: -2.25e10}, {K: "float64", F: math.MaxFloat64}, {K: "float64", F: math.SmallestNonzeroFloat64}, {K: "float64", F: math.Inf(1)}, {K: "float64", F: 1e21},
 	{K: "string", S: ""}, {K: "string", S: "a"}, {K: "string", S: "héllo wörld"}, {K: "string", B: []byte{0xff, 0xfe, 'x'}}, {K: "string", S: "with \"quotes\"\n"},
+	{K: "string", S: "é"}, {K: "string", S: "ë"}, {K: "string", S: "€"}, {K: "string", S: "→"}, {K: "string", S: "x"},
 	{K: "bool", I: 1}, {K: "bool", I: 0}, {K: "nil"},
 	{K: "slice", Sl: []BVal{{K: "int32", I: 1}, {K: "int32", I: 2}}}, {K: "slice"}, {K: "slice", Sl: []BVal{{K: "string", S: "x"}, {K: "string", S: ""}}},
 	{K: "slice", An: true, Sl: []BVal{{K: "int32", I: 7}, {K: "string", S: "eight"}, {K: "float64", F: 9.5}}}, {K: "slice", An: true}, {K: "slice", An: true, Sl: []BVal{{K: "nil"}}},
@@ -206,7 +207,7 @@ func (boundary) Describe() core.EngineInfo {
 		Real:       []string{"goatlang NewFunc adapters, call/callReady, mkFunc, newMethod, VM.Call/Func/Set/Get, constructors and accessors, slices.SortFunc native"},
 		Stubs:      []string{"host natives are the simulator's (they are the seam)", "SimDisk serves the script"},
 		Assumes:    []string{"an untyped constant passed to a native arrives as goatlang's untyped number: payload compared, type not", "scalars, nil and slices of scalars only", "natives that break their own declared result count are host bugs and are not injected"},
-		ProbesWant: []string{"form_1", "form_2", "form_3", "form_4", "form_5", "form_6", "ctx_stmt", "ctx_stmtret", "ctx_assign", "ctx_expr", "ctx_nested", "ctx_fnvar", "ctx_loop", "ctx_viafn", "ctx_method", "ctx_reenter", "ctx_recurse", "ctx_sort", "hostcall_swap", "hostcall_variadic", "hostcall_reuse", "round_2", "fault_propagated", "fault_handled", "hostcall_ok", "hostcall_too_many", "spread"},
+		ProbesWant: []string{"form_1", "form_2", "form_3", "form_4", "form_5", "form_6", "ctx_stmt", "ctx_stmtret", "ctx_assign", "ctx_expr", "ctx_nested", "ctx_fnvar", "ctx_loop", "ctx_viafn", "ctx_method", "ctx_objmethod", "ctx_reenter", "ctx_recurse", "ctx_sort", "hostcall_swap", "hostcall_variadic", "hostcall_reuse", "hostcall_redefine", "round_2", "fault_propagated", "fault_handled", "hostcall_ok", "hostcall_too_many", "spread"},
 	}
 }
 
@@ -276,7 +277,7 @@ func (e boundary) genPlan(r *core.PRNG) *BPlan {
 		ctx := core.Pick(r, ctxs)
 		ni := r.Intn(len(p.Natives))
 		n := p.Natives[ni]
-		if ctx == "nestedarg" || ctx == "expr" || ctx == "viafn" || ctx == "method" || ctx == "callback" {
+		if ctx == "nestedarg" || ctx == "expr" || ctx == "viafn" || ctx == "method" || ctx == "callback" || ctx == "objmethod" {
 			// needs at least one result
 			found := -1
 			for try := 0; try < 8; try++ {
@@ -298,6 +299,13 @@ func (e boundary) genPlan(r *core.PRNG) *BPlan {
 		idx := len(p.Sites)
 		p.Sites = append(p.Sites, s)
 		args, spread := genArgs(n, ctx, depth)
+		if ctx == "objmethod" {
+			for i := range args {
+				if args[i].Kind == "site" || args[i].Kind == "loop" {
+					args[i] = BArg{Kind: "pool", N: r.Intn(len(bPool))}
+				}
+			}
+		}
 		if ctx == "method" || ctx == "callback" {
 			// the body receives one value x and passes it on: first argument is x, the rest pool values
 			for i := range args {
@@ -310,7 +318,7 @@ func (e boundary) genPlan(r *core.PRNG) *BPlan {
 		switch ctx {
 		case "assign":
 			p.Sites[idx].Want = r.Intn(n.Rets + 1)
-		case "expr", "nestedarg", "viafn", "method", "callback":
+		case "expr", "nestedarg", "viafn", "method", "callback", "objmethod":
 			p.Sites[idx].Want = 1
 		case "fnvar":
 			if n.Rets >= 1 {
@@ -340,7 +348,7 @@ func (e boundary) genPlan(r *core.PRNG) *BPlan {
 	}
 	ns := 2 + r.Intn(10)
 	for i := 0; i < ns; i++ {
-		gen([]string{"stmt", "stmtret", "assign", "assign", "expr", "nested", "fnvar", "loop", "viafn", "method", "reenter", "recurse", "sort"}, 0)
+		gen([]string{"stmt", "stmtret", "assign", "assign", "expr", "nested", "fnvar", "loop", "viafn", "method", "objmethod", "objmethod", "reenter", "recurse", "sort"}, 0)
 	}
 	if r.Chance(1, 2) {
 		nf := 1 + r.Intn(2)
@@ -372,7 +380,15 @@ func (e boundary) genPlan(r *core.PRNG) *BPlan {
 			a = 1 + r.Intn(4)
 			h = BHostCall{Fn: "reuse", A: a}
 		}
-		for j := 0; j < h.A; j++ {
+		if r.Chance(1, 8) {
+			h = BHostCall{Fn: "redefine", A: r.Intn(6)}
+			a = 3
+		}
+		np := h.A
+		if h.Fn == "redefine" {
+			np = 3
+		}
+		for j := 0; j < np; j++ {
 			h.Params = append(h.Params, r.Intn(len(bPool)))
 		}
 		p.HostCalls = append(p.HostCalls, h)
@@ -490,6 +506,10 @@ func (p *BPlan) render() string {
 			ln("func cb%d(x any) any { host.At(%d); G = %d; return %s }", si, si, si, p.callExpr(si, "", "x"))
 		case "method":
 			ln("func (t *T) m%d(x any) any { host.At(%d); G = %d; return %s }", si, si, si, p.callExpr(si, "", "x"))
+		case "objmethod":
+			// the native as a method of a wrapped host object held in a local variable (a parameter)
+			call := strings.Replace(p.callExpr(si, "", ""), fmt.Sprintf("host.N%d(", s.Native), fmt.Sprintf("o.M%d(", s.Native), 1)
+			ln("func om%d(o any) any { host.At(%d); G = %d; return %s }", si, si, si, call)
 		case "stmtret":
 			// a native called as a statement inside a value-returning function: its
 			// results must not leak into the function's own result
@@ -500,6 +520,7 @@ func (p *BPlan) render() string {
 		ln("var v%d = host.Give(%d)", i, i)
 	}
 	ln("var vSpread = host.Give(-1)")
+	ln("var hobj = host.Obj()")
 	ln("func work() {")
 	for si, s := range p.Sites {
 		if s.Skip {
@@ -510,6 +531,9 @@ func (p *BPlan) render() string {
 		switch s.Ctx {
 		case "stmt", "recurse":
 			ln(pre + p.callExpr(si, "", ""))
+		case "objmethod":
+			ln("\tw%d := om%d(hobj)", si, si)
+			ln("\thost.Obs(%d, w%d)", si, si)
 		case "stmtret":
 			ln("\tz%d := sr%d()", si, si)
 			ln("\thost.Obs(%d, z%d)", si, si)
@@ -591,6 +615,7 @@ type bRun struct {
 	handled bool
 	reDepth int
 	inRecurse bool
+	nativeVals map[int]goatlang.Value
 	handledNow bool // a nested error was handled during the current round
 	forms   map[string]bool
 }
@@ -778,6 +803,13 @@ func (run *bRun) natives(vm *goatlang.VM) {
 		}
 		return rets[0]
 	}))
+	run.nativeVals = map[int]goatlang.Value{}
+	vm.Set("host.Obj", goatlang.NewFunc(0, 1, func(v *goatlang.VM) goatlang.Value { return goatlang.Wrap(&bObj{run: run}) }))
+	defer func() {
+		for k := range run.p.Natives {
+			run.nativeVals[k] = vm.Get(fmt.Sprintf("host.N%d", k))
+		}
+	}()
 	for k, n := range run.p.Natives {
 		k, n := k, n
 		name := fmt.Sprintf("host.N%d", k)
@@ -817,6 +849,22 @@ func (run *bRun) natives(vm *goatlang.VM) {
 	}
 }
 
+// bObj is a Go object handed to scripts (Wrap): its attributes M<k> are the natives N<k>.
+type bObj struct {
+	goatlang.Object
+	run *bRun
+}
+
+func (o *bObj) GetAttr(k string) goatlang.Value {
+	var n int
+	if _, err := fmt.Sscanf(k, "M%d", &n); err == nil {
+		if v, ok := o.run.nativeVals[n]; ok {
+			return v
+		}
+	}
+	return goatlang.Nil()
+}
+
 // obs: the script echoes what a call site gave it.
 func (run *bRun) obs(site int, got []goatlang.Value) {
 	run.h.H.Add("script", "obs", fmt.Sprintf("site %d %s", site, core.ValuesString(got)))
@@ -837,7 +885,7 @@ func (run *bRun) obs(site int, got []goatlang.Value) {
 		}
 	case "stmtret":
 		want = []BVal{{K: "int32", I: 12345}}
-	case "nested", "fnvar", "viafn", "method":
+	case "nested", "fnvar", "viafn", "method", "objmethod":
 		if len(rv) > 0 {
 			want = rv[:1]
 		}
@@ -967,6 +1015,49 @@ func (run *bRun) siteCtx(si int) string {
 func (run *bRun) hostCall(hc *BHostCall) {
 	if hc.Fn == "swap" {
 		run.hostSwap(hc)
+		return
+	}
+	if hc.Fn == "redefine" {
+		// a function name is defined again by a later Eval with another shape (variadic <-> fixed,
+		// native <-> script); Call must invoke what is defined NOW, with the given parameters
+		run.h.C.Inc("hostcall_redefine")
+		if len(hc.Params) < 3 {
+			return
+		}
+		p0, p1, p2 := bPool[hc.Params[0]], bPool[hc.Params[1]], bPool[hc.Params[2]]
+		defs := []struct {
+			src  string
+			n    int
+			want func(r []goatlang.Value) bool
+		}{
+			{"func rv(a any, rest ...any) (any, int) { return a, len(rest) }", 3, func(r []goatlang.Value) bool { return p0.matches(r[0]) && r[1].Int() == 2 }},
+			{"func rv(a any, b any) (any, int) { return b, 70 }", 2, func(r []goatlang.Value) bool { return p1.matches(r[0]) && r[1].Int() == 70 }},
+			{"func rv(rest ...any) (any, int) { return rest[len(rest)-1], len(rest) }", 3, func(r []goatlang.Value) bool { return p2.matches(r[0]) && r[1].Int() == 3 }},
+			{"func rv(a any, b any, c any) (any, int) { return c, 71 }", 3, func(r []goatlang.Value) bool { return p2.matches(r[0]) && r[1].Int() == 71 }},
+		}
+		order := []int{0, 1, 2, 3}
+		if hc.A%2 == 1 {
+			order = []int{1, 0, 3, 2}
+		}
+		if hc.A%3 == 0 {
+			// start from a native registered under that name
+			run.h.VM.Set("main.rv", goatlang.NewFunc(1, 2, func(v *goatlang.VM, a []goatlang.Value) []goatlang.Value {
+				return []goatlang.Value{a[0], goatlang.Int(99)}
+			}))
+		}
+		for _, di := range order {
+			d := defs[di]
+			if _, err := run.h.Eval("stdin", d.src); err != nil {
+				run.fail("C19/count", "redefine-failed", "Eval(%q) failed: %v", d.src, err)
+				return
+			}
+			ps := []goatlang.Value{p0.value(), p1.value(), p2.value()}[:d.n]
+			rets, err := run.h.Call("main.rv", 2, ps...)
+			if err != nil || len(rets) != 2 || !d.want(rets) {
+				run.fail("C19/count", "redefined-shape", "after Eval(%q), Call(main.rv) with %d parameters (%s, %s, %s)[:%d] returned %s, %v", d.src, d.n, p0, p1, p2, d.n, core.ValuesString(rets), err)
+				return
+			}
+		}
 		return
 	}
 	if hc.Fn == "reuse" {
